@@ -5,9 +5,11 @@ package main
 import (
 	"bytes"
 	"crypto/sha256"
+	"encoding/binary"
 	"encoding/hex"
 	"fmt"
 	"math/big"
+	"slices"
 	"strconv"
 	"strings"
 
@@ -262,6 +264,9 @@ type ecbObs struct {
 	err          string
 	bad          string
 	sBits, rBits func(byteLen int, key []byte) (*vsot.SenderOutput, *vsot.ReceiverOutput, error)
+	lines        []string
+	check        func(outs []string) []string // exponent tie: failure descriptions
+	note         string
 }
 
 func ecbRun[P curves.Point[P, B, S], B algebra.FieldElement[B], S algebra.PrimeFieldElement[S]](
@@ -275,18 +280,21 @@ func ecbRun[P curves.Point[P, B, S], B algebra.FieldElement[B], S algebra.PrimeF
 	}
 	var sout *ecbbot.SenderOutput[S]
 	var rout *ecbbot.ReceiverOutput[S]
+	var r1 *ecbbot.Round1P2P[P, S]
+	sr := &recReader{r: rngFor(d, "ecb-sender-prng")}
+	rr := &recReader{r: rngFor(d, "ecb-receiver-prng")}
 	if p := vh.Safely(func() {
-		snd, err := ecbbot.NewSender(ctxs[1], suite, rngFor(d, "ecb-sender-prng"))
+		snd, err := ecbbot.NewSender(ctxs[1], suite, sr)
 		if err != nil {
 			o.err = "new-sender"
 			return
 		}
-		rcv, err := ecbbot.NewReceiver(ctxs[2], suite, rngFor(d, "ecb-receiver-prng"))
+		rcv, err := ecbbot.NewReceiver(ctxs[2], suite, rr)
 		if err != nil {
 			o.err = "new-receiver"
 			return
 		}
-		r1, err := snd.Round1()
+		r1, err = snd.Round1()
 		if err != nil {
 			o.err = "round1"
 			return
@@ -319,6 +327,91 @@ func ecbRun[P curves.Point[P, B, S], B algebra.FieldElement[B], S algebra.PrimeF
 		r, err := rout.ToBitsOutput(n, key)
 		return s, r, err
 	}
+	// ---- exponent tie (chosen branch): recover a and some b_i from the recorded tapes through the public sampler,
+	// validated by a.G = Ms and Key2(b_i, Ms, tag) = receiver output; the model predicts the shared exponent a.b_i
+	func() {
+		field, ok := curve.ScalarStructure().(algebra.PrimeField[S])
+		ka, err := ecbbot.NewTaggedKeyAgreement(curve)
+		if !ok || err != nil || len(sr.reads) == 0 || r1 == nil {
+			o.note = "ecbbot key agreement not accessible"
+			return
+		}
+		a, err := field.Random(bytes.NewReader(sr.reads[0]))
+		if err != nil || !curve.ScalarBaseMul(a).Equal(r1.Ms) {
+			o.note = "ecbbot sender scalar not derivable from its tape"
+			return
+		}
+		tagOf := func(idx int, j byte) []byte {
+			return slices.Concat([]byte(ecbbot.PopfKeyLabel), binary.LittleEndian.AppendUint32(nil, uint32(idx)), []byte{j})
+		}
+		q := field.Order().Big()
+		zs := func(s S) string { return vh.ZHex(new(big.Int).SetBytes(s.Bytes())) }
+		n := xi * L
+		pick := map[int]bool{0: true, n - 1: true}
+		pr := rngFor(d, "ecb-pick")
+		for len(pick) < min(n, 5) {
+			pick[pr.Intn(n)] = true
+		}
+		type inst struct {
+			idx, i, l int
+			c         byte
+		}
+		var insts []inst
+		var lines []string
+		pos := 0
+		for idx := 0; idx < n; idx++ {
+			i, l := idx/L, idx%L
+			c := getBit(x, i)
+			if !pick[idx] {
+				pos++
+				continue
+			}
+			found := false
+			for ; pos < len(rr.reads) && !found; pos++ {
+				cand, err := field.Random(bytes.NewReader(rr.reads[pos]))
+				if err != nil || cand.IsZero() {
+					continue
+				}
+				k, err := ka.Key2(cand, r1.Ms, tagOf(idx, c))
+				if err == nil && k.Equal(rout.Messages[i][l]) {
+					lines = append(lines, fmt.Sprintf("C %d %s %s %s %d", idx, vh.ZHex(q), zs(a), zs(cand), c))
+					insts = append(insts, inst{idx, i, l, c})
+					found = true
+				}
+			}
+			if !found {
+				o.note = "ecbbot receiver scalars not derivable from its tape"
+				return
+			}
+		}
+		o.lines = lines
+		o.check = func(outs []string) []string {
+			var fails []string
+			for k, in := range insts {
+				f := strings.Fields(outs[k])
+				if len(f) != 5 {
+					fails = append(fails, "bad model line")
+					continue
+				}
+				if f[2] != f[3] || f[4] != "1" {
+					fails = append(fails, fmt.Sprintf("idx %d: model keys not correlated", in.idx))
+				}
+				kr, err := field.FromBytesBEReduce(vh.UnZHex(f[2]).Bytes())
+				if err != nil || kr.IsZero() {
+					continue
+				}
+				// Hash(tag || (a.b_i).G) through the public key-agreement helper
+				key, err := ka.Key1(kr, curve.Generator(), tagOf(in.idx, in.c))
+				if err != nil {
+					continue
+				}
+				if !key.Equal(rout.Messages[in.i][in.l]) || !key.Equal(sout.Messages[in.i][in.c][in.l]) {
+					fails = append(fails, fmt.Sprintf("idx %d: outputs are not the key derived from (a.b_i).G", in.idx))
+				}
+			}
+			return fails
+		}
+	}()
 	// POPF round trip on the implementation: Eval(Program(c, y), c) = y, and the other branch differs
 	pr := rngFor(d, "popf")
 	f, err := ecbbot.NewPopf(curve, pr.Bytes(16), pr.Bytes(16))
@@ -375,6 +468,20 @@ func runEcb(d desc) outcome {
 	}
 	if bad != "" {
 		o.prop = append(o.prop, mm(d, "prop", "ecbbot-output-correlation", "ecbbot_correlation / ecbbot_messages_differ", bad, true))
+	}
+	if ob.note != "" {
+		o.notes = append(o.notes, ob.note+" ("+d.text()+")")
+	}
+	o.lines = ob.lines
+	pf := bad != ""
+	if ob.check != nil {
+		o.cmp = func(outs []string) []vh.Mismatch {
+			var ms []vh.Mismatch
+			for _, f := range ob.check(outs) {
+				ms = append(ms, mm(d, "corr", "ecbbot-exponent", "correspondence ecbbot key derivation in the exponent", f, pf))
+			}
+			return ms
+		}
 	}
 	return o
 }
